@@ -9,6 +9,7 @@ import Rough.Driver.Envelope
 import Rough.Driver.Procs
 import Rough.Driver.Reqs
 import Rough.Driver.RespSend
+import Rough.Driver.Loop
 open Rough Rough.Driver
 
 def dispatch (op : String) (args : List String) (impl : String) : Verdict :=
@@ -37,6 +38,7 @@ def dispatch (op : String) (args : List String) (impl : String) : Verdict :=
   | "req" => opReq args impl
   | "cfgleak" => opCfgLeak args impl
   | "respsend" => opRespSend args impl
+  | "loop" => opLoop args impl
   | "grease" => opGrease args impl
   | "respond" => opRespond (args ++ [impl])
   | _ => bad ("unknown op " ++ op)
